@@ -26,6 +26,9 @@ func (o *objectGoSliceReflect) _putIdx(idx int, v Value, throw bool) bool {
 }
 
 func (o *objectGoSliceReflect) grow(size int) {
+	if size < 0 || int64(size) > math.MaxUint32 {
+		panic(rangeError("Invalid array length"))
+	}
 	oldcap := o.fieldsValue.Cap()
 	if oldcap < size {
 		n := reflect.MakeSlice(o.fieldsValue.Type(), size, growCap(size, o.fieldsValue.Len(), oldcap))
